@@ -189,6 +189,40 @@ def mixed(order, n1, n2, n3=9):
     sx.reach("mixed")
 
 
+def stale_queue(k, n):
+    """k answers of earlier, timed-out requests for the *same* object arrive late and sit in the client's queue: the
+    next upload returns the value the server holds now (all of them are discarded before the request goes out)"""
+    srv = RefServer("C01")
+    rig = ClientRig(srv)
+    idx = sx.fresh_int("idx", 0, 0xFFFF)
+    sub = sx.fresh_int("sub", 0, 0xFF)
+    for i in range(k):
+        old = sx.items(sx.fresh_bytes("old%d" % i, 4))
+        rig._rx(sx.mkbytes([0x43, sx.byte_of(idx, 0), sx.byte_of(idx, 1), sub] + old))
+    _one_upload(rig, srv, idx, sub, n, "exp-size" if 1 <= n <= 4 else "seg-size", "full", None, "api", 7,
+                "C01/stale-queue/%d" % k, "v")
+    sx.reach("stale-queue")
+
+
+def lost_request(direction, n, lost, retries):
+    """SdoClient.MAX_RETRIES raised by the application (a documented knob) on a bus that loses one *request* frame:
+    the client asks again; everything the server gets to see is still a legal frame for its protocol step and the
+    transfer completes with exactly the data"""
+    srv = RefServer("C01")
+    rig = ClientRig(srv)
+    rig.client.MAX_RETRIES = retries
+    rig.lose_requests = {lost}
+    idx = sx.fresh_int("idx", 0, 0xFFFF)
+    sub = sx.fresh_int("sub", 0, 0xFF)
+    tag = "C01/lost-request/%s/%d" % (direction, lost)
+    if direction == "download":
+        _do_download(rig, srv, idx, sub, sx.fresh_bytes("p", n), "api", "7", tag)
+    else:
+        _one_upload(rig, srv, idx, sub, n, "seg-size", "full", None, "api", 7, tag, "v")
+    sx.prove(len(srv.aborts_seen) == 0, "the client aborted a transfer that a repeated request completes", tag + "/aborted")
+    sx.reach("lost-request")
+
+
 def upload_redeclared(w1, w2):
     """what the dictionary declares is looked at for every upload: an entry read once and then declared differently
     (registered after a raw probe when w1 is None, or given another data type) is cut to the *current* declaration"""
@@ -605,6 +639,13 @@ def jobs(tier):
         for n1, n2 in ((9, 9), (15, 3), (3, 15), (8, 22), (0, 8), (30, 30)) if q else [(a, b) for a in (0, 3, 8, 9, 15, 30)
                                                                                    for b in (0, 3, 8, 9, 15, 30)]:
             out.append(dict(func="mixed", params=dict(order=order, n1=n1, n2=n2)))
+    for k in (1, 2, 3):
+        for n in (4, 9):
+            out.append(dict(func="stale_queue", params=dict(k=k, n=n)))
+    for direction in ("download", "upload"):
+        for lost in (0, 1, 2, 3):
+            out.append(dict(func="lost_request", params=dict(direction=direction, n=16, lost=lost, retries=2)))
+        out.append(dict(func="lost_request", params=dict(direction=direction, n=16, lost=1, retries=3)))
     for w1, w2 in ((None, 1), (1, 2), (4, 2), (2, None), (None, 4), (8, 1)):
         out.append(dict(func="upload_redeclared", params=dict(w1=w1, w2=w2)))
     # uploads
@@ -688,7 +729,7 @@ META = dict(
                  "delivery is exercised in C03/C07)"],
     stubs=["struct", "queue (delivery hook)", "time", "io.RawIOBase/BufferedWriter/BufferedReader models", "logging",
            "Network replaced by the rig"],
-    required_reach=["mixed", "redeclared", "download-api", "download-raw", "download-bufc", "download-bufp", "download-bufn", "back-to-back",
+    required_reach=["mixed", "stale-queue", "lost-request", "redeclared", "download-api", "download-raw", "download-bufc", "download-bufp", "download-bufn", "back-to-back",
                     "upload-api", "upload-raw7", "upload-rawall", "upload-readinto", "truncated", "style-exp-size",
                     "style-exp-nosize", "style-seg-size", "style-seg-nosize", "upload-back-to-back", "step-ok",
                     "step-rejected", "read-step-ok", "read-step-rejected", "init-expedited", "init-segmented",
